@@ -89,6 +89,7 @@ def vr_claim(fr, v_vs, v_src=None):
 
 
 def run_item(item):
+    item.cross_check = True      # thorough tier: discharged obligations are re-decided by cvc5
     pm = load_repo()
     name, prm = item.name, item.params
     conc = lambda m: {"msg": fr.concrete(m)}
